@@ -125,6 +125,7 @@ func TestVerifC18Startup(t *testing.T) {
 	gcWas := debug.SetGCPercent(-1)
 	defer debug.SetGCPercent(gcWas)
 	n := 0
+	leakWait := 50 // x 100 ms
 	for fi, fk := range failing {
 		for idx := 0; idx < 3; idx++ {
 			cfg := &Config{}
@@ -209,7 +210,7 @@ func TestVerifC18Startup(t *testing.T) {
 				// everything the failed start-up had opened is released: the process holds no socket it did not hold before (listeners,
 				// upstream sockets made when the upstream was built, the metrics endpoint); closing may take a moment
 				var extra []string
-				for i := 0; i < 50; i++ {
+				for i := 0; i < leakWait; i++ {
 					extra = extra[:0]
 					for ino := range c18OwnSockets() {
 						if !socksBefore[ino] {
@@ -222,6 +223,7 @@ func TestVerifC18Startup(t *testing.T) {
 					time.Sleep(100 * time.Millisecond)
 				}
 				if len(extra) > 0 {
+					leakWait = 5 // a tree that leaks does so in many of the configurations: the patience is for the first one
 					rep.Violate("C18:startup:socket-leaked:"+fk, fmt.Sprintf("after the failed start-up the process holds %d socket(s) it did not hold before (inodes %v): %s", len(extra), extra, desc), nil)
 				}
 			}
